@@ -6,6 +6,8 @@ Open Scope Z_scope.
 (* one event of a history with what was observed on the implementation *)
 Inductive hev :=
 | HReq (typ mid : Z) (tok : list Z) (code : Z) (reqopts : opts_t) (b : behaviour) (called : bool) (out : list owire)
+(* a request whose handler uses the request message itself as [u] (re-labels it, releases it) before it returns *)
+| HReqU (u : ruse) (typ mid : Z) (tok : list Z) (code : Z) (reqopts : opts_t) (b : behaviour) (called : bool) (out : list owire)
 | HAge (ms : Z)
 | HTick (out : list owire)
 | HDrop (typ mid : Z) (called : bool) (out : list owire)
@@ -16,7 +18,7 @@ Inductive case := Hist (own0 : Z) (h : list hev).
 
 Definition to_ev (e : hev) : ev :=
   match e with
-  | HReq t m tok c ro b _ _ => Req t m tok c ro b
+  | HReq t m tok c ro b _ _ | HReqU _ t m tok c ro b _ _ => Req t m tok c ro b
   | HAge ms => Age ms
   | HTick _ => Tick
   | HDrop t m _ _ => Drop t m
@@ -27,7 +29,7 @@ Definition to_ev (e : hev) : ev :=
 (* precondition of the model's [Req]: the message is not an empty confirmable one (a ping) *)
 Definition wf_hev (e : hev) : bool :=
   match e with
-  | HReq t _ tok c ro _ _ _ => negb ((t =? 0) && (c =? 0) && (blen tok =? 0) && (blen ro =? 0))
+  | HReq t _ tok c ro _ _ _ | HReqU _ t _ tok c ro _ _ _ => negb ((t =? 0) && (c =? 0) && (blen tok =? 0) && (blen ro =? 0))
   | _ => true
   end.
 
@@ -37,24 +39,32 @@ Definition wire_agrees (w : wire) (o : owire) : bool :=
 
 Definition obs_agrees (o : obs) (e : hev) : bool :=
   match e with
-  | HReq _ _ _ _ _ _ called out => Bool.eqb (o_called o) called && list_rel wire_agrees (o_out o) out
+  | HReq _ _ _ _ _ _ called out | HReqU _ _ _ _ _ _ _ called out => Bool.eqb (o_called o) called && list_rel wire_agrees (o_out o) out
   | HAge _ => true
   | HTick out => list_rel wire_agrees (o_out o) out
   | HDrop _ _ called out | HPing _ called out | HSend _ _ _ _ _ called out =>
       Bool.eqb (o_called o) called && list_rel wire_agrees (o_out o) out
   end.
 
+(* the model's step for an observed event: a request with a handler that uses the request message goes through the
+   object-level step of the code ([step_u RBefore]; Dedup/Proofs.v req_use_irrelevant: it is [step] of the erased event) *)
+Definition step_h (s : st) (e : hev) : st * obs :=
+  match e with
+  | HReqU u t m tok c ro b _ _ => step_u RBefore s u t m tok c ro b
+  | _ => step s (to_ev e)
+  end.
+
 Fixpoint hist_agrees (s : st) (h : list hev) : bool :=
   match h with
   | [] => true
-  | e :: r => let '(s1, o) := step s (to_ev e) in wf_hev e && obs_agrees o e && hist_agrees s1 r
+  | e :: r => let '(s1, o) := step_h s e in wf_hev e && obs_agrees o e && hist_agrees s1 r
   end.
 
 Definition agrees (c : case) : bool := match c with Hist own0 h => hist_agrees (init own0) h end.
 
 Definition to_oev (e : hev) : oev :=
   match e with
-  | HReq t m _ _ _ _ called out => {| k := KReq; typ := t; mid := m; ms := 0; called := called; out := out |}
+  | HReq t m _ _ _ _ called out | HReqU _ t m _ _ _ _ called out => {| k := KReq; typ := t; mid := m; ms := 0; called := called; out := out |}
   | HAge d => {| k := KAge; typ := 0; mid := 0; ms := d; called := false; out := [] |}
   | HTick out => {| k := KTick; typ := 0; mid := 0; ms := 0; called := false; out := out |}
   | HDrop t m called out => {| k := KOther; typ := t; mid := m; ms := 0; called := called; out := out |}
@@ -88,13 +98,17 @@ Definition wire_clause (e : hev) : N :=
   | _ => 0%N
   end.
 
+(* the wire clause does not depend on what the handler does with the request message *)
+Definition strip_use (e : hev) : hev :=
+  match e with HReqU _ t m tok c ro b called out => HReq t m tok c ro b called out | _ => e end.
+
 Fixpoint first_nonzero (l : list N) : N :=
   match l with [] => 0%N | c :: r => if N.eqb c 0 then first_nonzero r else c end.
 
 Definition pclass (c : case) : N :=
   match c with Hist _ h =>
     let c5 := c05_class (map to_oev h) in
-    if N.eqb c5 0 then first_nonzero (map wire_clause h) else c5
+    if N.eqb c5 0 then first_nonzero (map (fun e => wire_clause (strip_use e)) h) else c5
   end.
 
 Definition mismatches (cs : list case) : list N := bad_indices (fun c => negb (agrees c)) cs.
